@@ -1,15 +1,20 @@
-"""Harness mod: in-memory persist provider (STORE survives between runs of one process)."""
+"""Harness mod: in-memory persist provider.  STORE survives between runs of one process; with snapshot=True the store is copied at every
+PRE_SETTLEMENT (= what was persisted at the end-of-day persistence point POST_AFTER_TRADING of the day being settled)."""
 from rqalpha.interface import AbstractMod, AbstractPersistProvider
 
 STORE = {}
 RESUME = {'on': True}
+SNAPSHOTS = {}      # trading date (str) -> copy of STORE
+LOG = []            # (op, key, length)
 
 
 class P(AbstractPersistProvider):
     def store(self, key, value):
         STORE[key] = value
+        LOG.append(('store', key, len(value) if value is not None else None))
 
     def load(self, key):
+        LOG.append(('load', key, None if STORE.get(key) is None else len(STORE[key])))
         return STORE.get(key)
 
     def should_resume(self):
@@ -22,6 +27,12 @@ class P(AbstractPersistProvider):
 class M(AbstractMod):
     def start_up(self, env, mod_config):
         env.set_persist_provider(P())
+        if getattr(mod_config, 'snapshot', False):
+            from rqalpha.core.events import EVENT
+
+            def snap(event):
+                SNAPSHOTS[str(env.trading_dt.date())] = dict(STORE)
+            env.event_bus.add_listener(EVENT.PRE_SETTLEMENT, snap)
 
     def tear_down(self, code, exception=None):
         pass
